@@ -78,7 +78,15 @@ func (rt *runtime) cmplEvaluateNodeStatement(node nodeStatement) Value {
 				rt.labels = nil
 			}
 		}()
-		return rt.cmplEvaluateNodeStatement(node.statement)
+		value := rt.cmplEvaluateNodeStatement(node.statement)
+		if value.kind == valueResult {
+			// 12.12: a break that targets this label ends the labelled statement normally,
+			// whatever statement the label is on (an if, a bare break, a catch clause ...)
+			if res, ok := value.value.(result); ok && res.kind == resultBreak && res.target == node.label {
+				return emptyValue
+			}
+		}
+		return value
 
 	case *nodeReturnStatement:
 		if node.argument != nil {
